@@ -128,11 +128,13 @@ def generate(run_seed, prop, tier="quick"):
         if kind == "foreign_rng":
             op["seed"] = rng.randrange(2 ** 31)
         if kind == "repermute":
-            op.update({"permute": rng.choice(["reverse", "shuffle", "shuffle"]), "relabel": rng.choice(["none", "none", "shuffle", "offset"]),
+            op.update({"permute": rng.choice(["reverse", "shuffle", "shuffle"]), "relabel": rng.choice(["none", "none", "shuffle", "offset", "negative"]),
                        "perm_seed": rng.randrange(2 ** 30), "beads": rng.random() < 0.5})
         if kind == "reweight":
             op.update({"seed": rng.randrange(2 ** 30), "fraction": rng.choice([0.1, 0.3, 0.6]),
-                       "scale": rng.choice([1.0, 1.0, 1e-10, 1e8])})
+                       "scale": rng.choice([1.0, 1.0, 1e-10, 1e8]), "normalised": rng.random() < 0.3})
+            if op["normalised"]:
+                op.update({"fraction": 0.0, "scale": 1.0})
         if kind == "preset_positions":
             op["how"] = rng.choice(["shared_zeros", "int_zeros", "own_zeros"])
         if kind == "bead_weights":
@@ -153,7 +155,7 @@ def generate(run_seed, prop, tier="quick"):
     return {"family": "rdkit", "prop": prop, "run_seed": run_seed, "sources": sources, "engine": engine, "debug_logging": env_debug_logging(run_seed),
             "embed_seed": rng.randrange(1, 2 ** 30),
             "permute": rng.choice(["none", "reverse", "shuffle", "shuffle"]),
-            "relabel": rng.choice(["none", "none", "shuffle", "offset"]),
+            "relabel": rng.choice(["none", "none", "shuffle", "offset", "negative"]),
             "perm_seed": rng.randrange(2 ** 30), "ops": ops}
 
 
@@ -229,6 +231,9 @@ def _permute(graph, how, seed, relabel):
         mapping = dict(zip(graph.nodes, keys))
     elif relabel == "offset":
         mapping = {n: n * 3 + 7 for n in graph.nodes}
+    elif relabel == "negative":
+        shift = 1 + rng.randrange(max(1, len(keys_all := list(graph.nodes))))
+        mapping = {n: k - shift for k, n in enumerate(keys_all)}
     out = nx.Graph()
     for node in nodes:
         out.add_node(mapping[node], **copy.deepcopy(graph.nodes[node]))
@@ -597,6 +602,19 @@ def run_history(scenario):
                 import random
                 rng = random.Random(op["seed"])
                 scale = float(op.get("scale", 1.0))
+                if op.get("normalised"):
+                    # weights given as rounded fractions of the bead: they add up to almost, not exactly, one
+                    for bead in cg.nodes:
+                        sub = cg.nodes[bead].get("graph")
+                        members = [n for n in mol.members.get(bead, []) if len(aa.nodes[n].get("fragid", [])) == 1]
+                        if sub is None or not members:
+                            continue
+                        share = round(1.0 / len(members), 5)
+                        for node in members:
+                            aa.nodes[node]["weight"] = share
+                            if node in sub.nodes:
+                                sub.nodes[node]["weight"] = share
+                    stats["fault:reweight-normalised:fired"] = stats.get("fault:reweight-normalised:fired", 0) + 1
                 if scale != 1.0:
                     # the same weights in other units: only their ratios matter for a weight-normalised average
                     for node in list(aa.nodes):
